@@ -29,7 +29,7 @@ VAR_KINDS = {
     "none": ["None", "0", "None"],
     "list": ["[1, 2]", "[1, 3]", "[]"],
     "tuple": ["(1, 2)", "(1, 3)", "()"],
-    "tuplef": ["(1, 2)", "(1.0, 2.0)", "(True, 2)"],
+    "tuplef": ["(1, 2)", "(1.0, 2.0)", "(1, 2.0)"],  # equal under ==, different element types (bool = int is a documented identification: no bools here)
     "dict": ["{'k': 1, 'j': 2}", "{'j': 2, 'k': 1}", "{'k': 2}"],
     "relpath": ["pathlib.Path('data/raw.csv')", "pathlib.Path('data/other.csv')", "pathlib.Path('x')"],
     "path": ["PurePosixPath('/x/y')", "PurePosixPath('/x/z')", "PurePosixPath('a')"],
